@@ -14,6 +14,7 @@ import PyhamModel.Model.WF
 import PyhamModel.Model.Realises
 import PyhamModel.Model.Spell
 import PyhamModel.Model.Agg
+import PyhamModel.Model.Session
 open Pyham
 
 /-! ### s-expressions -/
@@ -174,11 +175,11 @@ partial def elemRaw : Elem → String
 
 /-! ### per-case output -/
 
-structure Out where
+structure OutBuf where
   cid : String
   lines : Array String := #[]
 
-def Out.put (o : Out) (tag payload : String) : Out :=
+def OutBuf.put (o : OutBuf) (tag payload : String) : OutBuf :=
   { o with lines := o.lines.push (o.cid ++ "\t" ++ tag ++ "\t" ++ payload) }
 
 def allHogLocs (H : Ham) : List Loc := H.allLocs.filter fun l => !l.node.isGene
@@ -193,7 +194,7 @@ def regKeyS (H : Ham) (k : Key) : String :=
 
 def nonEmptyTaxa (H : Ham) : List Taxon := H.tree.allTaxa.filter fun t => H.genomeSize t > 0
 
-def emitLoad (pfx : String) (H : Ham) (o : Out) : Out := Id.run do
+def emitLoad (pfx : String) (H : Ham) (o : OutBuf) : OutBuf := Id.run do
   let mut o := o
   let singles := H.singletons.map Node.key
   for g in H.genes do
@@ -210,7 +211,7 @@ def emitLoad (pfx : String) (H : Ham) (o : Out) : Out := Id.run do
       o := o.put (pfx ++ "agname") (taxS t ++ "=" ++ (H.tree.nameAt H.naming t).getD "?")
   return o
 
-def emitAnn (H : Ham) (o : Out) : Out := Id.run do
+def emitAnn (H : Ham) (o : OutBuf) : OutBuf := Id.run do
   let mut o := o
   for l in H.allLocs do
     match l.node with
@@ -220,7 +221,7 @@ def emitAnn (H : Ham) (o : Out) : Out := Id.run do
     | .gene i _ _ loft => o := o.put "loft" (i ++ "=" ++ osS loft)
   return o
 
-def emitNav (H : Ham) (o : Out) : Out := Id.run do
+def emitNav (H : Ham) (o : OutBuf) : OutBuf := Id.run do
   let mut o := o
   for l in allHogLocs H do
     let n := l.node
@@ -234,7 +235,7 @@ def emitNav (H : Ham) (o : Out) : Out := Id.run do
         nodeKeyS e.1 ++ "=" ++ ",".intercalate (sortS e.2))))
   return o
 
-def emitProfiles (H : Ham) (o : Out) : Out := Id.run do
+def emitProfiles (H : Ham) (o : OutBuf) : OutBuf := Id.run do
   let mut o := o
   o := o.put "tpfull" (" ".intercalate ((profileFull H).map featS))
   o := o.put "tpjson" (" ".intercalate (((profileFullJson H).read []).map fun e =>
@@ -245,7 +246,7 @@ def emitProfiles (H : Ham) (o : Out) : Out := Id.run do
     o := o.put "tphog" (osS hid ++ "|" ++ " ".intercalate ((profileHog H n).map featS))
   return o
 
-def emitIham (T : STree) (nm : Naming) (H : Ham) (o : Out) : Out := Id.run do
+def emitIham (T : STree) (nm : Naming) (H : Ham) (o : OutBuf) : OutBuf := Id.run do
   let mut o := o
   for l in allHogLocs H do
     let n := l.node
@@ -267,7 +268,7 @@ def emitIham (T : STree) (nm : Naming) (H : Ham) (o : Out) : Out := Id.run do
       | .ok H2 => o := o.put "irt" (nodeKeyS n ++ "|" ++ " ".intercalate (sortS (H2.tops.map fun p => forestS p.2)))
   return o
 
-def emitXref (H : Ham) (o : Out) : Out := Id.run do
+def emitXref (H : Ham) (o : OutBuf) : OutBuf := Id.run do
   let mut o := o
   let vals := dedup (H.genes.flatMap fun g => g.xrefs.map (·.2))
   for v in vals do
@@ -275,7 +276,7 @@ def emitXref (H : Ham) (o : Out) : Out := Id.run do
       (g.xrefs.filter (·.2 == v)).map fun _ => g.id))
   return o
 
-def emitTree (T : STree) (nm : Naming) (o : Out) : Out := Id.run do
+def emitTree (T : STree) (nm : Naming) (o : OutBuf) : OutBuf := Id.run do
   let mut o := o
   if !T.namesOk nm then
     return o.put "txcheck" "err:KeyError"
@@ -290,6 +291,38 @@ def emitTree (T : STree) (nm : Naming) (o : Out) : Out := Id.run do
     | none => pure ()
   return o
 
+/-! ### sessions (C17) and lookups (C15) -/
+
+def keyOfS (H : Ham) (k : String) : Key :=
+  match H.allLocs.find? (fun l => nodeKeyS l.node == k) with
+  | some l => l.node.key
+  | none => .h 0
+
+def decOp (H : Ham) : SExp → Option Op
+  | .list [.atom "v", a, d] => some (.vertical (decTaxon a) (decTaxon d))
+  | .list [.atom "l", a, d] => some (.lateral (decTaxon a) (decTaxon d))
+  | .list [.atom "tp"] => some .profileFull
+  | .list [.atom "tph", .str k] => some (.profileHog (keyOfS H k))
+  | .list [.atom "iham", .str k] => some (.iham (keyOfS H k))
+  | .list [.atom "clust", t] => some (.clustering (decTaxon t))
+  | .list [.atom "gene", .str i] => some (.geneById i)
+  | .list [.atom "genes", .str k] => some (.descGenes (keyOfS H k))
+  | _ => none
+
+def errS {α} (f : α → String) : Except Err α → String
+  | .ok x => f x
+  | .error e => "err:" ++ e.toStr
+
+def outS (H : Ham) : Pyham.Out → String
+  | .hmap r => errS (fun m => "vmap " ++ hmapS H m) r
+  | .lmap r => errS (fun m => "lmap anc=" ++ taxS m.anc ++ "|" ++ " # ".intercalate (sortS (m.maps.map fun e => hmapS H e.2))) r
+  | .feats r => errS (fun fs => "feats " ++ " ".intercalate (fs.map featS)) r
+  | .export r => errS (fun ex => "iham " ++ " ".intercalate (sortS (ex.groups.map elemS)) ++ "|" ++
+      ";".intercalate (sortS (ex.species.map fun s => s.name ++ ":" ++ ",".intercalate (sortS (s.genes.map (·.id)))))) r
+  | .clust r => "clust " ++ ";".intercalate (sortS (r.map fun e => nodeKeyS e.1 ++ "=" ++ ",".intercalate (sortS e.2)))
+  | .gene r => errS (fun g => "gene " ++ g.id ++ " " ++ g.species) r
+  | .ids r => errS (fun ids => "genes " ++ ",".intercalate (sortS ids)) r
+
 def decFilter (xs : List SExp) : Filter :=
   xs.foldl (fun f x => match x with
     | .list (.atom "hog" :: r) => { f with hogIds := strs r }
@@ -297,7 +330,7 @@ def decFilter (xs : List SExp) : Filter :=
     | .list (.atom "int" :: r) => { f with intIds := strs r }
     | _ => f) {}
 
-def runQuery (T : STree) (nm : Naming) (inp : Input) (H? : Option Ham) (q : SExp) (o : Out) : Out :=
+def runQuery (T : STree) (nm : Naming) (inp : Input) (H? : Option Ham) (q : SExp) (o : OutBuf) : OutBuf :=
   match q, H? with
   | .list [.atom "v", a, d], some H =>
     match vertical H (decTaxon a) (decTaxon d) with
@@ -321,6 +354,24 @@ def runQuery (T : STree) (nm : Naming) (inp : Input) (H? : Option Ham) (q : SExp
       | .ok r => o.put "atlevel" (k ++ "@" ++ taxS (decTaxon g) ++ "=" ++ keysS r)
       | .error e => o.put "atlevel" (k ++ "@" ++ taxS (decTaxon g) ++ "=err:" ++ e.toStr)
     | none => o.put "atlevel" (k ++ "@" ++ taxS (decTaxon g) ++ "=nokey")
+  | .list (.atom "session" :: ops), some H =>
+    let ops' := ops.filterMap (decOp H)
+    let outs := (run (SState.init H) ops').2
+    (List.zip (List.range outs.length) outs).foldl (fun o e => o.put "session" (toString e.1 ++ ":" ++ outS H e.2)) o
+  | .list [.atom "lookup", .atom kind, .str k], some H =>
+    let r := match kind with
+      | "gene" => errS (fun (g : GeneRec) => g.id ++ "@" ++ g.species) (H.geneById k)
+      | "xref" => errS (fun (ids : List String) => ",".intercalate ids) (H.genesByExternalId k)
+      | "hog" => errS (fun (n : Node) => nodeKeyS n) (H.hogById k)
+      | "hogbygene" => errS (fun (n : Node) => nodeKeyS n) (H.hogByGene k)
+      | "extant" => errS taxS (H.extantGenomeByName k)
+      | "ancestral" => errS taxS (H.ancestralGenomeByName k)
+      | "taxon" => errS taxS (H.taxonByName k)
+      | _ => "?"
+    o.put "lookup" (kind ++ ":" ++ k ++ "=" ++ r)
+  | .list (.atom "mrcaset" :: ts), some H =>
+    let tx := ts.map decTaxon
+    o.put "lookup" ("mrcaset:" ++ ",".intercalate (sortS (tx.map taxS)) ++ "=" ++ errS taxS (H.ancestralGenomeByMrca tx))
   | .list (.atom "filter" :: .atom k :: r), _ =>
     let pfx := "F" ++ k ++ "."
     match loadFiltered T nm inp (decFilter r) with
@@ -342,7 +393,7 @@ def runCase (e : SExp) : Array String :=
                          groups := (findField "groups" fields).map decElem }
     let want := (findField "emit" fields).filterMap fun | .atom s => some s | _ => none
     let queries := findField "queries" fields
-    let o : Out := { cid := cid }
+    let o : OutBuf := { cid := cid }
     let o := if want.contains "tree" then emitTree T nm o else o
     -- spelled histories: echo of the encoding and of the hypotheses of the theorems
     let o := (findField "histories" fields).foldl (fun o h =>
